@@ -357,7 +357,7 @@ func (s *ProofStructure) CommitmentsFromSecrets(g *gabikeys.PublicKey, m, mRando
 
 	bases := zkproof.NewBaseMerge(g, commit)
 
-	var contributions []*big.Int
+	contributions := s.statementContributions(commit.c)
 	contributions = s.mCorrect.CommitmentsFromSecrets(g, contributions, &bases, commit)
 	for i := range commit.d {
 		contributions = s.cRep[i].CommitmentsFromSecrets(g, contributions, &bases, commit)
@@ -367,6 +367,21 @@ func (s *ProofStructure) CommitmentsFromSecrets(g *gabikeys.PublicKey, m, mRando
 	s.randomizers = (*ProofCommit)(commit)
 
 	return contributions, (*ProofCommit)(commit), nil
+}
+
+// statementContributions returns what fixes the statement being proven: the attribute index, the
+// descriptor (sign, factor, bound, size of the squares) and the commitments to the squares. They must
+// be part of the challenge input. Otherwise a prover can choose the bound and the commitments after
+// having seen the challenge, which allows it to make a verifying proof for any inequality.
+func (s *ProofStructure) statementContributions(cs []*big.Int) []*big.Int {
+	contributions := []*big.Int{
+		big.NewInt(int64(s.index)),
+		big.NewInt(int64(s.sign)),
+		new(big.Int).SetUint64(uint64(s.a)),
+		new(big.Int).Set(s.k),
+		new(big.Int).SetUint64(uint64(s.ld)),
+	}
+	return append(contributions, cs...)
 }
 
 func (s *ProofStructure) BuildProof(commit *ProofCommit, challenge *big.Int) *Proof {
@@ -434,7 +449,7 @@ func (s *ProofStructure) VerifyProofStructure(g *gabikeys.PublicKey, p *Proof) b
 func (s *ProofStructure) CommitmentsFromProof(g *gabikeys.PublicKey, p *Proof, challenge *big.Int) []*big.Int {
 	bases := zkproof.NewBaseMerge(g, (*proof)(p))
 
-	var contributions []*big.Int
+	contributions := s.statementContributions(p.Cs)
 	contributions = s.mCorrect.CommitmentsFromProof(g, contributions, challenge, &bases, (*proof)(p))
 	for i := range s.cRep {
 		contributions = s.cRep[i].CommitmentsFromProof(g, contributions, challenge, &bases, (*proof)(p))
